@@ -1,5 +1,10 @@
 package main
 
+import (
+	"fmt"
+	"os"
+)
+
 var c04Pkgs = []pkgRef{
 	{"util/semver", "deps.dev/util/semver"},
 	{"util/resolve", "deps.dev/util/resolve"},
@@ -17,12 +22,49 @@ func init() {
 		ID:       "C04",
 		Replayer: replayC04,
 		Extra: func(c *checkCtx, wb bool) []OblResult {
-			return sweepFuncs(c, c04Pkgs, wb, nil)
+			rs := sweepFuncs(c, c04Pkgs, wb, nil)
+			c.bounded = append(c.bounded, "entry points of util/semver, util/pypi and the PyPI marker parser/evaluator over a fixed hostile corpus (about 6000 generated strings plus grammar products), 120 s limit per package: bounded stand-in for termination and for the sites outside the inventory")
+			return append(rs, boundedC04(c)...)
 		},
 		Assume: []string{
 			"only the obligations of the committed inventory (/verif/baseline/C04.json) are claimed: sites that need contracts not yet written are listed as not claimed",
 			"receivers and pointer parameters may be nil unless a contract says otherwise; loops without an invariant are cut with everything they write forgotten",
 			"termination is not part of the discharged obligations except for loops carrying a `decreases` clause",
+		},
+	}
+	propDefs["C05"] = &PropDef{
+		ID: "C05",
+		Extra: func(c *checkCtx, wb bool) []OblResult {
+			prog, err := c.prog("util/resolve")
+			if err != nil {
+				fmt.Fprintf(os.Stderr, "govc: cannot load util/resolve: %v\n", err)
+				os.Exit(2)
+			}
+			c.fns["npm/maven/pypi (*resolver).Resolve and everything reachable; (*LocalClient) Version/Versions/Requirements/MatchingVersions (frame conditions)"] = true
+			rs := OwnershipObligations(prog)
+			for i := range rs {
+				rs[i].Order = i
+			}
+			return rs
+		},
+		Replayer: replayC05,
+		Trusted: []string{
+			"the ownership analysis /verif/engine/own.go (inclusion-based points-to over go/ssa with regions FRESH/CLIENT/RESOLVER/MEMO/GLOBAL; not an SMT proof)",
+			"library model of own.go (sort.*, slices.*, append/copy/delete, strings.Builder, fmt, errors: which argument they write)",
+			"the PyPI resolver's three LRU caches are allowed memo effects: their Get/Add are trusted to behave as a map and are not analysed (their internal list mutation under concurrent use is outside this check)",
+			"closed world for interfaces declared in deps.dev packages; the client's own error/context/Stringer implementations",
+		},
+		Assume: []string{
+			"frame condition decides the property: if Resolve and the client methods write only memory allocated during the call, the client reports the same afterwards, earlier calls cannot matter, and concurrent calls have no conflicting access to shared client memory",
+			"insertion-order independence of the client contents (C14/C12 territory) is not part of this check",
+		},
+	}
+	propDefs["C14"] = &PropDef{
+		ID:   "C14",
+		Pkgs: []pkgRef{{"util/resolve", "deps.dev/util/resolve"}},
+		Assume: []string{
+			"partial: AddVersion's postconditions cover the requirement list stored under the key, the known packages, and the replacement of an existing entry (attributes included); that a newly inserted version is present after sorting, the order of the lists and MatchingVersions are not covered",
+			"the sort helpers are used through their frame (modifies) contracts, which are themselves checked against the static may-write sets",
 		},
 	}
 	propDefs["C13"] = &PropDef{
